@@ -24,6 +24,9 @@ CHECKS = {
   "C18": ("Hypothesis + enumerated boundary grids vs one-shot struct.pack (differential: struct strategy, array strategy, oracle) and WAV round trip through the stdlib wave module",
           "chunks: both strategies, seven formats, all byte orders, sizes crossing 127/128/255/256, ragged tails and pad values are compared byte-for-byte with a single struct.pack of the padded sequence; WavStream: files written by the stdlib wave module (24-bit packed by hand) are decoded and compared exactly (ints with keep, dyadic floats otherwise), header mirrored, file descriptor closed after exhaustion. Sampled plus enumerated boundary grids; thorough decodes every 8- and 16-bit value.",
           "Trusts struct and wave from the standard library as the codec oracle; floats for 'f' are float32-representable; rates <= 2**28.", "3/C18"),
+  "C05": ("Hypothesis (incl. recursive expression-tree strategy) vs an independent rational-function arithmetic (cross-multiplication equality) and diffeq_ref outputs; metamorphic identities between the library's own two sides",
+          "Generated filter pairs/triples with integer coefficients, scalars, exponents, delays and expression trees over + - * / ** neg and substitution; each composite filter is compared with an independent rational-function model (by cross-multiplication) and its output with the difference equation of the expected function, as well as with the composition of the parts' outputs; Cascade/Parallel outputs and polynomials; ==/!=/hash over construction routes and numeric spellings. Sampled, depth <= 3.",
+          "Integer coefficients (exact printing); divisions by scalars only for powers of two; negative powers of single-term filters excluded where Python's float power leaves exact arithmetic.", "3/C05"),
 }
 NOT_BUILT = "check not built yet in this session (planned in DESIGN.md section 3); no claim is made until it is"
 
